@@ -244,6 +244,20 @@ def P_dlc_server2(ctx, t):
     call(ctx, t, "recv", "dlc2cc", c2.recv, sock=c2)
 
 
+def P_wks_clash(ctx, t):
+    # a raw access point bound by number to a well-known address, then a bind by the well-known NAME of that address
+    # (must be refused: EADDRINUSE); the first socket keeps being served: a reader blocked on it comes back at link end
+    import nfc.llcp.llc as llc_mod
+    r = nfc.llcp.Socket(ctx.llc, llc_mod.RAW_ACCESS_POINT)
+    call(ctx, t, "bind", "raw4", lambda: r.bind(4), sock=r)
+    n = nfc.llcp.Socket(ctx.llc, nfc.llcp.DATA_LINK_CONNECTION)
+    try:
+        call(ctx, t, "bind", "wks", lambda: n.bind(b"urn:nfc:sn:snep"), sock=n)
+    except nfc.llcp.Error:
+        pass
+    call(ctx, t, "recv", "raw4", r.recv, sock=r)
+
+
 def _rejected_client(sid):
     # a connection that gets frame-rejected while the application waits in recv(): by the peer's FRMR, by an I PDU with
     # a wrong N(S) (the local side sends FRMR) or by a connection-less PDU addressed to it - the socket shuts itself
@@ -258,7 +272,7 @@ def _rejected_client(sid):
 
 P_dlc_frmr_peer, P_dlc_frmr_local, P_dlc_frmr_ui = _rejected_client("dlc7"), _rejected_client("dlc8"), _rejected_client("dlc9")
 
-PROGRAMS = dict(dlc_server2=P_dlc_server2, dlc_frmr_peer=P_dlc_frmr_peer, dlc_frmr_local=P_dlc_frmr_local, dlc_frmr_ui=P_dlc_frmr_ui,
+PROGRAMS = dict(wks_clash=P_wks_clash, dlc_server2=P_dlc_server2, dlc_frmr_peer=P_dlc_frmr_peer, dlc_frmr_local=P_dlc_frmr_local, dlc_frmr_ui=P_dlc_frmr_ui,
                 ldl_recv=P_ldl_recv, ldl_poll=P_ldl_poll, dlc_client=P_dlc_client, dlc_client_name=P_dlc_client_name,
                 dlc_server=P_dlc_server, resolve=P_resolve, poll_send=P_poll_send,
                 dlc_poll_recv=P_dlc_poll_recv, dlc_poll_acks=P_dlc_poll_acks, dlc_poll_send=P_dlc_poll_send,
@@ -544,7 +558,7 @@ SCENARIOS_QUICK = [
     ("poll_send",), ("late_connect",), ("late_resolve",), ("late_accept",), ("late_recvfrom",),
     ("late_bound_recvfrom",), ("late_sendto",), ("early_then_late",),
     ("dlc_poll_recv",), ("dlc_poll_acks",), ("dlc_poll_send",),
-    ("dlc_frmr_peer",), ("dlc_frmr_local",), ("dlc_frmr_ui",), ("dlc_server2",),
+    ("dlc_frmr_peer",), ("dlc_frmr_local",), ("dlc_frmr_ui",), ("dlc_server2",), ("wks_clash",),
     ("ldl_recv", "dlc_client"), ("dlc_server", "resolve"), ("ldl_poll", "dlc_client_name"),
 ]
 
